@@ -39,6 +39,7 @@ type Contract struct {
 	Func    string // "Name" or "(*T).Name" or "(T).Name"
 	Clauses []*Clause
 	Options map[string]bool
+	Props   []string
 	File    string
 	Line    int
 }
@@ -55,7 +56,7 @@ func (c *Contract) byKind(k string) []*Clause {
 
 func (c *Contract) id() string { return c.Pkg + "." + c.Func }
 
-var clauseRe = regexp.MustCompile(`^(requires|ensures|loop|assigns|reads|option|func|lemma)\b(\[[A-Za-z0-9_.\-]+\])?\s*(.*)$`)
+var clauseRe = regexp.MustCompile(`^(requires|ensures|loop|assigns|reads|option|func|lemma|props)\b(\[[A-Za-z0-9_.\-]+\])?\s*(.*)$`)
 
 // parseContracts reads the //@ clause blocks of a contracts file.
 func parseContracts(pkgPath, file string, src []byte) ([]*Contract, error) {
@@ -119,6 +120,8 @@ func parseContracts(pkgPath, file string, src []byte) ([]*Contract, error) {
 			for _, o := range strings.Fields(rest) {
 				cur.Options[o] = true
 			}
+		case "props":
+			cur.Props = append(cur.Props, strings.Fields(rest)...)
 		}
 		cur.Clauses = append(cur.Clauses, cl)
 		last = cl
